@@ -267,6 +267,19 @@ def coq_bytes(b):
     return "[" + ";".join(str(x) for x in b) + "]%N"
 
 
+BYTE_DEFS = {}   # byte string -> name of its Gallina definition in gen/C20_Cache.v
+
+
+def coq_bytes_c(b):
+    """Shared form for the kernel case files: every DISTINCT byte string is defined once and referred to by name
+    (elaborating the numeral lists costs far more than evaluating the cases; digests and headers repeat a lot)."""
+    if not b:
+        return "[]"
+    if b not in BYTE_DEFS:
+        BYTE_DEFS[b] = f"bs{len(BYTE_DEFS)}"
+    return BYTE_DEFS[b]
+
+
 def coq_frame_case(opts):
     kvs = []
     for k in sorted(opts, key=str):
@@ -693,7 +706,7 @@ def cache_cases(c, res, ident):
         o = hashlib.blake2b(frame_bytes(pr["opts"]), digest_size=8).digest()
         hdr = bytes.fromhex(pr["hdr_hex"])
         payload_ok = used if tail_only else (not (k == "truncate") or noop)
-        out.append((f"({use}, {cur}%N, {coq_bytes(d)}, {coq_bytes(o)}, Some {coq_bytes(hdr)}, {'true' if payload_ok else 'false'}, {'true' if used else 'false'})",
+        out.append((f"({use}, {cur}%N, {coq_bytes_c(d)}, {coq_bytes_c(o)}, Some {coq_bytes_c(hdr)}, {'true' if payload_ok else 'false'}, {'true' if used else 'false'})",
                     dict(ident, variant=var, outcome=pr["outcome"])))
     # options digest vs model framing
     fb = frame_bytes(res["opts"])
@@ -787,10 +800,10 @@ def path_cases(c, res, ident):
         c.count(("path", ident["map"], json.dumps(ident["opts"], sort_keys=True), len(steps), steps[-1]), nontrivial=nontrivial)
         code = {"cache": 0, "parse": 2 if r["snet_changed"] else 1, "error:FileNotFoundError": 3, "error:ValueError": 4,
                 "error:UnpicklingError": 5}.get(out, 9)
-        ob = lambda h: "None" if h is None else "(Some " + coq_bytes(bytes.fromhex(h)) + ")"   # noqa
+        ob = lambda h: "None" if h is None else "(Some " + coq_bytes_c(bytes.fromhex(h)) + ")"   # noqa
         od = hashlib.blake2b(frame_bytes(o), digest_size=8).digest()
         PATH_TERMS.append((f"({kind}, {'true' if op['useCache'] else 'false'}, {'true' if op['writeCache'] else 'false'}, {cur}%N, "
-                           f"{ob(r['map_digest'])}, {coq_bytes(od)}, {ob(r['snet_hdr'])}, {'true' if r['payload_ok'] else 'false'}, "
+                           f"{ob(r['map_digest'])}, {coq_bytes_c(od)}, {ob(r['snet_hdr'])}, {'true' if r['payload_ok'] else 'false'}, "
                            f"{code}%N, {ob(r['snet_hdr_after'])})", rep))
 
 
@@ -877,6 +890,7 @@ def main():
     # ---- cache protocol + framing cases, evaluated by the kernel
     frames = hash_box["frames"]
     text = ("From Coq Require Import List Bool NArith.\nFrom Scenic Require Import C20.Network.\nImport ListNotations.\n"
+            + "".join(f"Definition {n} : list byte := {coq_bytes(b)}.\n" for b, n in BYTE_DEFS.items()) +
             "Definition cc : list cache_case := [\n " + ";\n ".join(t for t, _ in cache_terms) + "].\n"
             "Definition cbad := Eval vm_compute in failing_idx cache_ok cc 0%N.\nPrint cbad.\n"
             "Definition pc : list path_case := [\n " + ";\n ".join(t for t, _ in PATH_TERMS) + "].\n"
